@@ -10,7 +10,7 @@ import (
 
 func init() {
 	props["C18"] = &propInfo{Level: "model_checking",
-		Rule: "explicit-state BFS to closure over Insert/Delete histories of every tree kind x 7 value types (int, string, *struct, []byte, struct{}, [24]uint64, struct{ptr,string,slice}); keys and values are fresh heap objects referenced only by the tree; the collector is an enumerated environment event: a forced collection after every operation of every replay (thorough: additionally every subset of positions for histories of up to 8 operations); GODEBUG=clobberfree=1, GC percent 1, checkptr-instrumented build; in every reachable state every stored key and value is compared deeply with the reference through Search, All, Backward, extremes and Range; a runtime fatal error of the job is a violation",
+		Rule: "explicit-state BFS to closure over Insert/Delete histories of every tree kind x 10 value types (int, string, *struct, []byte, struct{}, [24]uint64, struct{ptr,string,slice}, int8, [3]byte, [11]byte), two values per key so that overwrites are transitions, every key width; keys and values are fresh heap objects referenced only by the tree; the collector is an enumerated environment event: a forced collection after every operation of every replay (thorough: additionally every subset of positions for histories of up to 8 operations); GODEBUG=clobberfree=1, GC percent 1, checkptr-instrumented build; in every reachable state every stored key and value is compared deeply with the reference through Search, All, Backward, extremes and Range; a runtime fatal error of the job is a violation; address-shaped keys: per tree kind, keys whose bytes read as addresses inside just-freed spans, as the dead-pointer pattern, as tiny and top-of-space addresses, with collections between the operations (a tree keeping key bytes in memory the collector scans dies there)",
 		Assume: []string{"collections at operation boundaries: every position (thorough: every subset for histories <= 8 operations); collections inside operations: every statement boundary of representative histories (insert all, iterate, range, delete half, iterate, search all) per tree kind with pointer-rich values, one event per history (thorough: every pair of events at most 48 statement positions apart), on the overlay-instrumented build",
 			"clobberfree makes use-after-free of a hidden reference a deterministic mismatch rather than a lucky read"},
 		Jobs: func(tier string, seed int) []JobDef {
@@ -19,6 +19,10 @@ func init() {
 			for _, d := range hist.Registry("C18", tier) {
 				out = append(out, JobDef{Name: d.Name, Bin: bin, Env: []string{"GODEBUG=clobberfree=1"}, CrashIsViolation: true,
 					Args: []string{"job", "-prop", "C18", "-tier", tier, "-universe", d.Name}})
+			}
+			// key bytes that look like addresses the collector rejects (no clobberfree: the spans must stay freed, not poisoned)
+			for _, j := range hist.PtrKeyJobs() {
+				out = append(out, JobDef{Name: j, Bin: bin, CrashIsViolation: true, Args: []string{"job", "-prop", "C18", "-tier", tier, "-universe", j}})
 			}
 			// collections at every statement boundary inside operations (engine E4, instrumented build)
 			sbin := os.Getenv("VERIF_BIN_SCHED")
